@@ -5,6 +5,7 @@ pub mod c08;
 pub mod c09;
 pub mod c10;
 pub mod c11;
+pub mod c12;
 pub mod c18;
 pub mod c20;
 
@@ -28,6 +29,7 @@ pub fn spec(id: &str) -> Option<CheckSpec> {
         "C09" => Some(c09::spec()),
         "C10" => Some(c10::spec()),
         "C11" => Some(c11::spec()),
+        "C12" => Some(c12::spec()),
         "C18" => Some(c18::spec()),
         "C20" => Some(c20::spec()),
         _ => None,
